@@ -1098,6 +1098,24 @@ expand_manifests(string &expr, bool expand_undefined,
           string result = manifest->expand(args, expand_undefined, nested_ignores);
           expand_manifests(result, expand_undefined, nested_ignores);
 
+          // Put the expansion in place of the invocation.  It consists of
+          // tokens of its own: keep it from running into its neighbors where
+          // no white space separates them ("M." with M defined as 1 is not
+          // the number 1., "-M" with M defined as -1 is not --1).
+          char before = (q > 0) ? expr[q - 1] : ' ';
+          char after = (p < expr.size()) ? expr[p] : ' ';
+          if (result.empty()) {
+            if (CPPManifest::would_paste(before, after)) {
+              result = " ";
+            }
+          } else {
+            if (CPPManifest::would_paste(before, result[0])) {
+              result.insert(0, 1, ' ');
+            }
+            if (CPPManifest::would_paste(result[result.size() - 1], after)) {
+              result += ' ';
+            }
+          }
           expr = expr.substr(0, q) + result + expr.substr(p);
           p = q + result.size();
         }
